@@ -5,6 +5,7 @@ import (
 	"context"
 	"fmt"
 	"math/rand"
+	"slices"
 	"sort"
 	"strconv"
 	"testing"
@@ -157,6 +158,20 @@ func Gen(t *rapid.T) Plan {
 				case 0, 1:
 					for idx := range ps.Ins {
 						if rapid.Bool().Draw(t, "drop") {
+							ps.LateDrop = append(ps.LateDrop, idx)
+						}
+					}
+				case 3:
+					// re-declaration: one initial input keeps its namespace / type / id but changes its kind
+					if len(ps.Ins) > 0 {
+						idx := rapid.IntRange(0, len(ps.Ins)-1).Draw(t, "rekind")
+						in := ps.Ins[idx]
+						kinds := []int{controller.InputWeak, controller.InputStrong, controller.InputDestroyReady}
+						in.Kind = kinds[(slices.Index(kinds, in.Kind)+1+rapid.IntRange(0, 1).Draw(t, "rekind-to"))%3]
+
+						rest := append(append([]sim.InSpec(nil), ps.Ins[:idx]...), ps.Ins[idx+1:]...)
+						if !(exclude && muted(append(rest, ps.Late...), in)) {
+							ps.Late = append(ps.Late, in)
 							ps.LateDrop = append(ps.LateDrop, idx)
 						}
 					}
